@@ -222,7 +222,14 @@ func defaultValueForTypeRec(config Config, schemas ast.Schemas, typeDef ast.Type
 						fieldOverrides = orderedmap.FromMap(overrides)
 					}
 
-					value = defaultValueForType(config, schemas, field.Type, fieldOverrides)
+					// an override that is not an object (an enum member, …) replaces the default of the field's own type
+					fieldType := field.Type
+					if fieldOverrides == nil {
+						fieldType = field.Type.DeepCopy()
+						fieldType.Default = v
+					}
+
+					value = defaultValueForType(config, schemas, fieldType, fieldOverrides)
 				}
 
 				extraDefaults = append(extraDefaults, fmt.Sprintf("%s: %s", formatFieldName(k), formatValue(value)))
